@@ -396,7 +396,32 @@ def bitfield(ctx):
         ctx.control("R43.bitfield call site %s" % name, got is want, repr(got))
 
 
-ALL = {"bitfield": bitfield, "masked_tail": masked_tail, "loopcursor": loopcursor, "scaledext": scaledext, "varint": varint, "threadcount": threadcount, "sizekind": sizekind, "lenext": lenext, "xxh": xxh, "signedoff": signedoff, "reqalloc": reqalloc, "fieldfit": fieldfit, "stalefield": stalefield, "hidden": hidden, "region_args": region_args, "widen": widen, "progress": progress, "lazyinit": lazyinit, "lanes": lanes, "atomic": atomic, "feasible": feasible, "endian": endian, "units": units, "alloc": alloc, "status": status, "ownership": ownership, "cursor": cursor, "arrays": arrays,
+def wrapsum(ctx):
+    from .rules import wrapsum as ws
+    c = _sub()
+    n = ws.check(c, ["src/controls.c"])
+    ctx.control("R44.wrap-sum finds the control sites", n >= 2, str(n))
+    _expect(ctx, "R44.wrap-sum", c, ["wrapsum_bad"], ["wrapsum_good"])
+
+
+def borrowed(ctx):
+    from .rules import borrowed as br
+    c = _sub()
+    n, names = br.check(c, ["src/controls.c"])
+    ctx.control("R45.borrowed-input finds the control borrowing functions", {"ctl_peek", "ctl_read_bin", "ctl_bindup_bad"} <= set(names) and "ctl_bindup_good" not in names, repr(names))
+    _expect(ctx, "R45.borrowed-input", c, ["borrowed_bad"], ["borrowed_good", "ctl_bindup_good"])
+
+
+def aligned(ctx):
+    from .props import C15
+    P = program()
+    c = _sub()
+    for n in ("prefix_aligned_bad", "prefix_aligned_good"):
+        C15.run_kernel(c, P, P.fn(n), "prefix_sum_i32", "sse", 24)
+    _expect(ctx, "R10.aligned", c, ["prefix_aligned_bad"], ["prefix_aligned_good"])
+
+
+ALL = {"aligned": aligned, "borrowed": borrowed, "wrapsum": wrapsum, "bitfield": bitfield, "masked_tail": masked_tail, "loopcursor": loopcursor, "scaledext": scaledext, "varint": varint, "threadcount": threadcount, "sizekind": sizekind, "lenext": lenext, "xxh": xxh, "signedoff": signedoff, "reqalloc": reqalloc, "fieldfit": fieldfit, "stalefield": stalefield, "hidden": hidden, "region_args": region_args, "widen": widen, "progress": progress, "lazyinit": lazyinit, "lanes": lanes, "atomic": atomic, "feasible": feasible, "endian": endian, "units": units, "alloc": alloc, "status": status, "ownership": ownership, "cursor": cursor, "arrays": arrays,
        "recursion": recursion, "narrowing": narrowing, "skeleton": skeleton, "must_pass": must_pass}
 
 
